@@ -3,6 +3,7 @@ import InfluxQL.Lemmas.Digits
 import InfluxQL.Lemmas.ParserTok
 import InfluxQL.Lemmas.IntLit
 import InfluxQL.Props.C03
+import InfluxQL.Lemmas.Render
 /-
 C01 — the parser accepts the grammar and builds the denoted AST.
 
@@ -10,10 +11,13 @@ The model is `Model/ParserStmt.lean` (all statements). The statement-level theor
 
   parse_render : WF a → Legal ℓ a → parseStatement (render a ℓ) = ok a
 
-is *not yet proved* (see notes/C01.md); every statement family is tied to the implementation
-by the correspondence streams `parse.stmt` / `parse.query` only. Proved here, for all inputs:
-obligations on the dispatch table regenerated from parse_tree.go, and the token-level behaviour of
-the pieces every statement is assembled from (`ParseOptionalTokenAndInt`, integer clamping).
+is proved below ("Free spelling") for the administrative statement families — for every choice of
+keyword case, identifier quoting and gaps (whitespace runs and comments), from the first character of
+the text: `…_statement_render_parse`. Every family that contains an expression, a source list or a
+SELECT is tied to the implementation by the correspondence streams `parse.stmt` / `parse.query` only
+(see notes/C01.md). Also proved here, for all inputs: obligations on the dispatch table regenerated
+from parse_tree.go, and the token-level behaviour of the pieces every statement is assembled from
+(`ParseOptionalTokenAndInt`, integer clamping).
 -/
 namespace InfluxQL.C01
 open InfluxQL Gen
@@ -185,5 +189,1222 @@ theorem gen_precedence_levels :
     ([Gen.Token.ADD, .SUB, .BITWISE_OR, .BITWISE_XOR].all (·.precedence == 4)) ∧
     ([Gen.Token.EQ, .NEQ, .LT, .LTE, .GT, .GTE, .EQREGEX, .NEQREGEX].all (·.precedence == 3)) ∧
     Gen.Token.AND.precedence = 2 ∧ Gen.Token.OR.precedence = 1 := C03.gen_precedence_levels
+
+/-! ## Free spelling: keyword case, gaps, quoting (`Lemmas/Render.lean`)
+
+A statement text is `render l` for a list `l` of `(gap, piece)` pairs: every piece (keyword in some
+case, name bare or quoted, string, integer with leading zeros, duration literal, `=`, `,`) preceded
+by a gap (any sequence of whitespace runes and comments, possibly empty). `Legal l k`: every gap
+and piece is well formed and no token runs into the next (`Piece.EndOK`; automatic after a
+non-empty gap). Texts are delivered runes (CR / CRLF folded to LF by the reader); the end-to-end
+theorems take a raw text whose delivered form (`foldCR`) is the rendering. -/
+
+open Render
+
+/-- Obligation on the regenerated keyword table: the key of every entry is the ASCII lower-casing of
+`Token.String()` of its token, which `Lookup` maps back to the token (a word of identifier runes). -/
+theorem gen_keywords_lower : ∀ p ∈ keywords, p.2.str.map lowerAscii = p.1 ∧ p.2.isKw = true :=
+  Render.gen_keywords_lower
+
+/-- **(a) Keyword case.** For every entry `(kw, tok)` of the regenerated keyword table and every word
+`w` whose ASCII lower-casing is `kw` — any mix of upper and lower case, letter by letter — `w`
+followed by a rune that ends a word (or by the end of the input) scans as the single token `tok`, and
+the scanner stops right behind `w`. -/
+theorem keyword_anyCase (kw : Str) (tok : Token) (hmem : (kw, tok) ∈ keywords) (w k : Str)
+    (hw : w.map lowerAscii = kw) (hk : WordEnd k) : ScansAs w k tok [] :=
+  scansAs_kwEntry kw tok hmem w k hw hk
+
+/-- **(b) Gap, then token.** In front of `gap ++ piece ++ k`, where the gap is any sequence of
+whitespace runes and comments (`/* … */` closed by its first `*/`, `-- …⏎`; no bound on their number
+or length; possibly empty) and `piece` scans as one token, `ScanIgnoreWhitespace` delivers exactly
+that token and leaves the parser before `k` with nothing pushed back. Also after a one-token
+look-ahead (`Around`). -/
+theorem gap_then_token (s : PState) (g : Render.Gap) (piece k : Str) (T : Token) (L : Str) (hok : gapOK g = true)
+    (hs : s.Around (gapText g ++ (piece ++ k))) (hsc : ScansAs piece k T L) :
+    ∃ lx s', scanIW.run s = .ok (lx, s') ∧ lx.tok = T ∧ lx.lit = L ∧ s'.Before k :=
+  delivers s g piece k T L hok hs hsc
+
+/-- **(c) and the other pieces.** Every legal piece — a keyword in any case, a name bare (if it does
+not need quotes) or quoted (any expressible name), a string literal, digits with leading zeros, a
+duration literal, `=`, `,` — followed by a text that does not continue it is exactly one token with
+the expected kind and value. -/
+theorem piece_one_token (p : Piece) (k : Str) (hok : p.ok = true) (hend : p.EndOK k) :
+    ScansAs p.text k p.tok p.lit := scansAs_piece p k hok hend
+
+/-- A name that does not need quotes may be written either way: both spellings are legal and
+denote the same name (`piece_one_token` gives IDENT `name` for both). -/
+theorem name_bare_or_quoted (name : Str) (hq : identNeedsQuotes name = false) (hne : name ≠ []) :
+    (Piece.name .bare name).ok = true ∧ (Piece.name .quoted name).ok = true ∧
+    (Piece.name .bare name).lit = (Piece.name .quoted name).lit := by
+  refine ⟨by simp [Piece.ok, NameSpelling.ok, hq, hne], ?_, rfl⟩
+  simp only [Piece.ok, NameSpelling.ok, decide_eq_true_eq]
+  exact expressible_of_bare name hq hne
+
+/-- **Raw whitespace.** The theorems above speak about the delivered text (`foldCR text`). A raw run
+of space, tab, LF, CR — in particular CR LF line ends — is delivered as a legal non-empty gap, so
+it may be written wherever a gap may. -/
+theorem raw_whitespace_is_gap (w : Str) (hne : w ≠ []) (h : ∀ c ∈ w, isRawWs c = true) :
+    ∃ g : Render.Gap, g ≠ [] ∧ gapOK g = true ∧ gapText g = foldCR w := foldCR_gap w hne h
+
+/-! ### the dispatch keywords in free spelling -/
+
+/-- Follow tokens through the regenerated dispatch tree from node `idx`: the handler the last one
+selects. -/
+def dispatchPath : Nat → List Token → Option Handler
+  | _, [] => none
+  | idx, t :: rest =>
+    match lookupTok t (dispatch.getD idx default).subs with
+    | some j => dispatchPath j rest
+    | none =>
+      match rest with
+      | [] => lookupTok t (dispatch.getD idx default).handlers
+      | _ :: _ => none
+
+/-- **The dispatch on freely spelled keywords.** If the tokens of the pieces `l` lead from node
+`idx` to handler `h`, then `dispatchLoop` on a legal spelling `l ++ body` is `h` started right
+behind the last piece of `l` (before `body`'s first gap). -/
+theorem dispatch_render (fuel : Nat) (h : Handler) (l : List (Render.Gap × Piece)) :
+    ∀ (it idx : Nat) (s : PState) (body : List (Render.Gap × Piece)) (k : Str),
+      dispatchPath idx (l.map (·.2.tok)) = some h → l.length ≤ it → Legal (l ++ body) k →
+      s.Before (render (l ++ body) ++ k) →
+      ∃ s', (dispatchLoop fuel it idx).run s = (runHandler fuel h).run s' ∧ s'.Before (render body ++ k) := by
+  induction l with
+  | nil => intro it idx s body k hp; cases hp
+  | cons gp rest ih =>
+    obtain ⟨g, p⟩ := gp
+    intro it idx s body k hp hlen hL hs
+    cases it with
+    | zero => simp at hlen
+    | succ it =>
+    rw [List.cons_append] at hL hs
+    obtain ⟨lx, s1, h1, t1, _, b1⟩ := step s g p (rest ++ body) k hL hs.around
+    simp only [List.map_cons] at hp
+    cases rest with
+    | nil =>
+      refine ⟨s1, ?_, b1⟩
+      simp only [List.map_nil, dispatchPath] at hp
+      conv => lhs; unfold dispatchLoop
+      rw [P.run_bind _ _ s lx s1 h1]
+      simp only [t1]
+      cases hsub : lookupTok p.tok (dispatch.getD idx default).subs with
+      | some j => rw [hsub] at hp; cases hp
+      | none =>
+        rw [hsub] at hp
+        simp only [hp]
+    | cons gp2 rest2 =>
+      simp only [List.map_cons] at hp
+      unfold dispatchPath at hp
+      cases hsub : lookupTok p.tok (dispatch.getD idx default).subs with
+      | none => rw [hsub] at hp; cases hp
+      | some j =>
+        rw [hsub] at hp
+        obtain ⟨s', h2, b2⟩ := ih it j s1 body k hp (by simpa using hlen) hL.tail b1
+        refine ⟨s', ?_, b2⟩
+        conv => lhs; unfold dispatchLoop
+        rw [P.run_bind _ _ s lx s1 h1]
+        simp only [t1, hsub]
+        exact h2
+
+/-- The same for `ParseStatement`. -/
+theorem parseStatement_render (fuel : Nat) (h : Handler) (l body : List (Render.Gap × Piece)) (s : PState) (k : Str)
+    (hp : dispatchPath 0 (l.map (·.2.tok)) = some h) (hlen : l.length ≤ dispatch.length + 1)
+    (hL : Legal (l ++ body) k) (hs : s.Before (render (l ++ body) ++ k)) :
+    ∃ s', (parseStatement fuel).run s = (runHandler fuel h).run s' ∧ s'.Before (render body ++ k) :=
+  dispatch_render fuel h l _ 0 s body k hp hlen hL hs
+
+/-- Keywords `toks` written as the words `ks`, each after its gap. -/
+def kwPieces : List Token → List (Render.Gap × Str) → List (Render.Gap × Piece)
+  | t :: toks, (g, w) :: ks => (g, .kw t w) :: kwPieces toks ks
+  | _, _ => []
+
+theorem kwPieces_toks : ∀ (toks : List Token) (ks : List (Render.Gap × Str)), ks.length = toks.length →
+    (kwPieces toks ks).map (·.2.tok) = toks ∧ (kwPieces toks ks).length = toks.length
+  | [], [], _ => ⟨rfl, rfl⟩
+  | [], _ :: _, h => by simp at h
+  | _ :: _, [], h => by simp at h
+  | t :: toks, (g, w) :: ks, h => by
+    obtain ⟨h1, h2⟩ := kwPieces_toks toks ks (by simpa using h)
+    refine ⟨?_, ?_⟩
+    · show t :: (kwPieces toks ks).map (·.2.tok) = t :: toks
+      rw [h1]
+    · show (kwPieces toks ks).length + 1 = toks.length + 1
+      rw [h2]
+
+/-- The keyword paths of the statement families treated below and the handler they select. -/
+def familyPaths : List (List Token × Handler) :=
+  [([.SHOW, .CONTINUOUS, .QUERIES], .parseShowContinuousQueriesStatement),
+   ([.SHOW, .DATABASES], .parseShowDatabasesStatement),
+   ([.SHOW, .QUERIES], .parseShowQueriesStatement),
+   ([.SHOW, .SHARD, .GROUPS], .parseShowShardGroupsStatement),
+   ([.SHOW, .SHARDS], .parseShowShardsStatement),
+   ([.SHOW, .SUBSCRIPTIONS], .parseShowSubscriptionsStatement),
+   ([.SHOW, .USERS], .parseShowUsersStatement),
+   ([.DROP, .DATABASE], .parseDropDatabaseStatement),
+   ([.DROP, .MEASUREMENT], .parseDropMeasurementStatement),
+   ([.DROP, .USER], .parseDropUserStatement),
+   ([.SHOW, .GRANTS, .FOR], .parseGrantsForUserStatement),
+   ([.DROP, .RETENTION, .POLICY], .parseDropRetentionPolicyStatement),
+   ([.DROP, .CONTINUOUS, .QUERY], .parseDropContinuousQueryStatement),
+   ([.SHOW, .RETENTION, .POLICIES], .parseShowRetentionPoliciesStatement),
+   ([.KILL, .QUERY], .parseKillQueryStatement),
+   ([.DROP, .SHARD], .parseDropShardStatement),
+   ([.CREATE, .USER], .parseCreateUserStatement),
+   ([.SET, .PASSWORD, .FOR], .parseSetPasswordUserStatement),
+   ([.GRANT], .parseGrantStatement),
+   ([.REVOKE], .parseRevokeStatement),
+   ([.CREATE, .RETENTION, .POLICY], .parseCreateRetentionPolicyStatement),
+   ([.SHOW, .STATS], .parseShowStatsStatement),
+   ([.SHOW, .DIAGNOSTICS], .parseShowDiagnosticsStatement)]
+
+/-- Obligation on the regenerated tables: every path above consists of keywords of the scanner's
+table and selects its handler from the root of the dispatch tree, within the rounds of the loop. -/
+theorem gen_familyPaths : ∀ p ∈ familyPaths,
+    (∀ t ∈ p.1, t.isKw = true) ∧ dispatchPath 0 p.1 = some p.2 ∧ p.1.length ≤ dispatch.length + 1 := by
+  decide +kernel
+
+/-- **From the first character.** `ParseStatement` on a legal free spelling of the keywords `toks`
+(a path of `familyPaths`) followed by a legal spelling `body` is the path's handler started on
+`body`. -/
+theorem parseStatement_family (fuel : Nat) (toks : List Token) (h : Handler) (hmem : (toks, h) ∈ familyPaths)
+    (ks : List (Render.Gap × Str)) (hks : ks.length = toks.length) (body : List (Render.Gap × Piece)) (s : PState) (k : Str)
+    (hL : Legal (kwPieces toks ks ++ body) k) (hs : s.Before (render (kwPieces toks ks ++ body) ++ k)) :
+    ∃ s', (parseStatement fuel).run s = (runHandler fuel h).run s' ∧ s'.Before (render body ++ k) ∧ Legal body k := by
+  obtain ⟨_, hpath, hlen⟩ := gen_familyPaths (toks, h) hmem
+  obtain ⟨h1, h2⟩ := kwPieces_toks toks ks hks
+  obtain ⟨s', hr, hb⟩ := parseStatement_render fuel h (kwPieces toks ks) body s k (by rw [h1]; exact hpath)
+    (by rw [h2]; exact hlen) hL hs
+  exact ⟨s', hr, hb, ((legal_append _ _ _).mp hL).2⟩
+
+/-- `ParseStatement(text)`: the parser is started before the delivered text followed by NUL. -/
+theorem parseStatementText_of_run (text : Str) (params : List (Str × BoundValue)) (tbl : List (Char × Char))
+    (st : Statement) (s' : PState)
+    (h : (parseStatement (fuelFor text)).run (PState.init text params tbl) = .ok (st, s')) :
+    parseStatementText text params tbl = .ok st := by
+  unfold parseStatementText
+  simp only [StateT.run'] at h ⊢
+  simp only [StateT.run] at h
+  rw [h]; rfl
+
+/-- End to end: a raw text whose delivered form is a legal spelling of the keywords of a family path
+followed by `body` and any continuation `k'`, on which the path's handler returns `st`. -/
+theorem statement_of_family (text : Str) (params : List (Str × BoundValue)) (tbl : List (Char × Char))
+    (toks : List Token) (h : Handler) (hmem : (toks, h) ∈ familyPaths) (ks : List (Render.Gap × Str))
+    (hks : ks.length = toks.length) (body : List (Render.Gap × Piece)) (k' : Str) (st : Statement)
+    (hfold : foldCR text = render (kwPieces toks ks ++ body) ++ k')
+    (hL : Legal (kwPieces toks ks ++ body) (k' ++ [eofRune]))
+    (hfam : ∀ s : PState, s.Before (render body ++ (k' ++ [eofRune])) → Legal body (k' ++ [eofRune]) →
+      ∃ s', (runHandler (fuelFor text) h).run s = .ok (st, s')) :
+    parseStatementText text params tbl = .ok st := by
+  have hs := PState.init_before text params tbl
+  rw [hfold, List.append_assoc] at hs
+  obtain ⟨s1, h1, b1, hL2⟩ := parseStatement_family (fuelFor text) toks h hmem ks hks body _ _ hL hs
+  obtain ⟨s', h2⟩ := hfam s1 b1 hL2
+  exact parseStatementText_of_run text params tbl st s' (by rw [h1]; exact h2)
+
+/-! ### statements without arguments -/
+
+/-- The handlers that read nothing, with their keywords. -/
+def zeroArgFamily : List (List Token × Handler × Statement) :=
+  [([.SHOW, .CONTINUOUS, .QUERIES], .parseShowContinuousQueriesStatement, .showContinuousQueries),
+   ([.SHOW, .DATABASES], .parseShowDatabasesStatement, .showDatabases),
+   ([.SHOW, .QUERIES], .parseShowQueriesStatement, .showQueries),
+   ([.SHOW, .SHARD, .GROUPS], .parseShowShardGroupsStatement, .showShardGroups),
+   ([.SHOW, .SHARDS], .parseShowShardsStatement, .showShards),
+   ([.SHOW, .SUBSCRIPTIONS], .parseShowSubscriptionsStatement, .showSubscriptions),
+   ([.SHOW, .USERS], .parseShowUsersStatement, .showUsers)]
+
+theorem gen_zeroArgFamily : ∀ p ∈ zeroArgFamily, (p.1, p.2.1) ∈ familyPaths := by decide
+
+/-- The handler returns the statement and reads nothing, in every state. -/
+theorem zeroArg_render_parse (fuel : Nat) (toks : List Token) (h : Handler) (st : Statement)
+    (hh : (toks, h, st) ∈ zeroArgFamily) (s : PState) : (runHandler fuel h).run s = .ok (st, s) := by
+  simp only [zeroArgFamily, List.mem_cons, Prod.mk.injEq, List.not_mem_nil, or_false] at hh
+  rcases hh with ⟨_, rfl, rfl⟩ | ⟨_, rfl, rfl⟩ | ⟨_, rfl, rfl⟩ | ⟨_, rfl, rfl⟩ | ⟨_, rfl, rfl⟩ | ⟨_, rfl, rfl⟩ |
+    ⟨_, rfl, rfl⟩ <;> rfl
+
+/-- **SHOW CONTINUOUS QUERIES / DATABASES / QUERIES / SHARD GROUPS / SHARDS / SUBSCRIPTIONS / USERS,
+from the first character**: every text whose delivered form is the keywords, each in any case and
+after any gap (the first gap may be empty), followed by anything `k'` that does not continue the
+last keyword, parses to the statement. -/
+theorem zeroArg_statement_render_parse (text : Str) (params : List (Str × BoundValue)) (tbl : List (Char × Char))
+    (toks : List Token) (h : Handler) (st : Statement) (hh : (toks, h, st) ∈ zeroArgFamily)
+    (ks : List (Render.Gap × Str)) (hks : ks.length = toks.length) (k' : Str)
+    (hfold : foldCR text = render (kwPieces toks ks) ++ k')
+    (hL : Legal (kwPieces toks ks) (k' ++ [eofRune])) :
+    parseStatementText text params tbl = .ok st := by
+  refine statement_of_family text params tbl toks h (gen_zeroArgFamily _ hh) ks hks [] k' st
+    (by rw [List.append_nil]; exact hfold) (by rw [List.append_nil]; exact hL) ?_
+  intro s _ _
+  exact ⟨s, zeroArg_render_parse _ toks h st hh s⟩
+
+/-! ### one name: DROP DATABASE / DROP MEASUREMENT / DROP USER / SHOW GRANTS FOR -/
+
+def singleNameFamily : List (List Token × Handler × (Str → Statement)) :=
+  [([.DROP, .DATABASE], .parseDropDatabaseStatement, .dropDatabase),
+   ([.DROP, .MEASUREMENT], .parseDropMeasurementStatement, .dropMeasurement),
+   ([.DROP, .USER], .parseDropUserStatement, .dropUser),
+   ([.SHOW, .GRANTS, .FOR], .parseGrantsForUserStatement, .showGrantsForUser)]
+
+theorem gen_singleNameFamily : ∀ p ∈ singleNameFamily, (p.1, p.2.1) ∈ familyPaths := by decide
+
+/-- **`<name>` in free spelling**: after any gap, the name bare (if it needs no quotes) or quoted. -/
+theorem singleName_render_parse (fuel : Nat) (toks : List Token) (h : Handler) (C : Str → Statement)
+    (hh : (toks, h, C) ∈ singleNameFamily) (s : PState) (g : Render.Gap) (sp : NameSpelling) (name k : Str)
+    (hL : Legal [(g, .name sp name)] k) (hs : s.Before (render [(g, .name sp name)] ++ k)) :
+    ∃ s', (runHandler fuel h).run s = .ok (C name, s') ∧ s'.Before k := by
+  obtain ⟨s', hrun, hb⟩ := parseIdent_of (name := name) (step s g (.name sp name) [] k hL hs.around)
+  refine ⟨s', ?_, hb⟩
+  simp only [singleNameFamily, List.mem_cons, Prod.mk.injEq, List.not_mem_nil, or_false] at hh
+  rcases hh with ⟨_, rfl, rfl⟩ | ⟨_, rfl, rfl⟩ | ⟨_, rfl, rfl⟩ | ⟨_, rfl, rfl⟩ <;>
+    (simp only [runHandler]; rw [P.run_bind _ _ s name s' hrun]; rfl)
+
+/-- **DROP DATABASE / DROP MEASUREMENT / DROP USER / SHOW GRANTS FOR `<name>`, from the first
+character.** -/
+theorem singleName_statement_render_parse (text : Str) (params : List (Str × BoundValue)) (tbl : List (Char × Char))
+    (toks : List Token) (h : Handler) (C : Str → Statement) (hh : (toks, h, C) ∈ singleNameFamily)
+    (ks : List (Render.Gap × Str)) (hks : ks.length = toks.length) (g : Render.Gap) (sp : NameSpelling) (name k' : Str)
+    (hfold : foldCR text = render (kwPieces toks ks ++ [(g, .name sp name)]) ++ k')
+    (hL : Legal (kwPieces toks ks ++ [(g, .name sp name)]) (k' ++ [eofRune])) :
+    parseStatementText text params tbl = .ok (C name) := by
+  refine statement_of_family text params tbl toks h (gen_singleNameFamily _ hh) ks hks _ k' _ hfold hL ?_
+  intro s hs hL2
+  obtain ⟨s', h1, _⟩ := singleName_render_parse _ toks h C hh s g sp name _ hL2 hs
+  exact ⟨s', h1⟩
+
+/-! ### `<name> ON <db>`: DROP RETENTION POLICY, DROP CONTINUOUS QUERY -/
+
+/-- `<name> ON <db>` with its five choices: three gaps, the case of `ON`, two quotings. -/
+def nameOnDbPieces (g1 : Render.Gap) (sp1 : NameSpelling) (g2 : Render.Gap) (on : Str) (g3 : Render.Gap) (sp2 : NameSpelling)
+    (name db : Str) : List (Render.Gap × Piece) :=
+  [(g1, .name sp1 name), (g2, .kw .ON on), (g3, .name sp2 db)]
+
+theorem parseNameOnDb_render (s : PState) (g1 : Render.Gap) (sp1 : NameSpelling) (g2 : Render.Gap) (on : Str) (g3 : Render.Gap)
+    (sp2 : NameSpelling) (name db k : Str) (hL : Legal (nameOnDbPieces g1 sp1 g2 on g3 sp2 name db) k)
+    (hs : s.Before (render (nameOnDbPieces g1 sp1 g2 on g3 sp2 name db) ++ k)) :
+    ∃ s', parseNameOnDb.run s = .ok ((name, db), s') ∧ s'.Before k := by
+  obtain ⟨s1, h1, b1⟩ := parseIdent_of (name := name) (step s g1 _ _ k hL hs.around)
+  obtain ⟨s2, h2, b2⟩ := expectTok_of (t := .ON) (L := []) ["ON"] (step s1 g2 _ _ k hL.tail b1.around)
+  obtain ⟨s3, h3, b3⟩ := parseIdent_of (name := db) (step s2 g3 _ _ k hL.tail.tail b2.around)
+  refine ⟨s3, ?_, b3⟩
+  unfold parseNameOnDb
+  rw [P.run_bind _ _ s name s1 h1, P.run_bind _ _ s1 () s2 h2, P.run_bind _ _ s2 db s3 h3]
+  rfl
+
+def nameOnDbFamily : List (List Token × Handler × (Str → Str → Statement)) :=
+  [([.DROP, .RETENTION, .POLICY], .parseDropRetentionPolicyStatement, .dropRetentionPolicy),
+   ([.DROP, .CONTINUOUS, .QUERY], .parseDropContinuousQueryStatement, .dropContinuousQuery)]
+
+theorem gen_nameOnDbFamily : ∀ p ∈ nameOnDbFamily, (p.1, p.2.1) ∈ familyPaths := by decide
+
+/-- **`<name> ON <db>` in free spelling.** -/
+theorem nameOnDb_render_parse (fuel : Nat) (toks : List Token) (h : Handler) (C : Str → Str → Statement)
+    (hh : (toks, h, C) ∈ nameOnDbFamily) (s : PState) (g1 : Render.Gap) (sp1 : NameSpelling) (g2 : Render.Gap) (on : Str)
+    (g3 : Render.Gap) (sp2 : NameSpelling) (name db k : Str)
+    (hL : Legal (nameOnDbPieces g1 sp1 g2 on g3 sp2 name db) k)
+    (hs : s.Before (render (nameOnDbPieces g1 sp1 g2 on g3 sp2 name db) ++ k)) :
+    ∃ s', (runHandler fuel h).run s = .ok (C name db, s') ∧ s'.Before k := by
+  obtain ⟨s', hrun, hb⟩ := parseNameOnDb_render s g1 sp1 g2 on g3 sp2 name db k hL hs
+  refine ⟨s', ?_, hb⟩
+  simp only [nameOnDbFamily, List.mem_cons, Prod.mk.injEq, List.not_mem_nil, or_false] at hh
+  rcases hh with ⟨_, rfl, rfl⟩ | ⟨_, rfl, rfl⟩ <;>
+    (simp only [runHandler]; rw [P.run_bind _ _ s (name, db) s' hrun]; rfl)
+
+/-- **DROP RETENTION POLICY / DROP CONTINUOUS QUERY `<name> ON <db>`, from the first character.** -/
+theorem nameOnDb_statement_render_parse (text : Str) (params : List (Str × BoundValue)) (tbl : List (Char × Char))
+    (toks : List Token) (h : Handler) (C : Str → Str → Statement) (hh : (toks, h, C) ∈ nameOnDbFamily)
+    (ks : List (Render.Gap × Str)) (hks : ks.length = toks.length) (g1 : Render.Gap) (sp1 : NameSpelling) (g2 : Render.Gap)
+    (on : Str) (g3 : Render.Gap) (sp2 : NameSpelling) (name db k' : Str)
+    (hfold : foldCR text = render (kwPieces toks ks ++ nameOnDbPieces g1 sp1 g2 on g3 sp2 name db) ++ k')
+    (hL : Legal (kwPieces toks ks ++ nameOnDbPieces g1 sp1 g2 on g3 sp2 name db) (k' ++ [eofRune])) :
+    parseStatementText text params tbl = .ok (C name db) := by
+  refine statement_of_family text params tbl toks h (gen_nameOnDbFamily _ hh) ks hks _ k' _ hfold hL ?_
+  intro s hs hL2
+  obtain ⟨s', h1, _⟩ := nameOnDb_render_parse _ toks h C hh s g1 sp1 g2 on g3 sp2 name db _ hL2 hs
+  exact ⟨s', h1⟩
+
+/-! ### the optional `ON <name>` clause: SHOW RETENTION POLICIES, KILL QUERY; DROP SHARD -/
+
+/-- The optional clause: absent, or a gap, `ON` in some case, a gap, the name in some quoting. -/
+def onPieces : Option (Render.Gap × Str × Render.Gap × NameSpelling) → Str → List (Render.Gap × Piece)
+  | none, _ => []
+  | some (g1, on, g2, sp), db => [(g1, .kw .ON on), (g2, .name sp db)]
+
+/-- A handler that ends with a look-ahead returns its result as soon as the text that follows does
+not start with one of the tokens that would continue the statement. -/
+theorem run_of_returnsAt {α : Type} {m : P α} {s : PState} {a : α} {sK : PState} {peek : Bool} {stop : List Token}
+    {k : Str} (hr : ReturnsAt m s a sK peek stop) (hb : sK.Before k)
+    (hn : peek = true → ∀ t ∈ stop, NextNot k t) : ∃ s', m.run s = .ok (a, s') := by
+  unfold ReturnsAt at hr
+  cases peek with
+  | false => exact ⟨sK, by simpa using hr⟩
+  | true =>
+    obtain ⟨lx, s1, h1⟩ := scanIW_total sK
+    simp only [if_true] at hr
+    exact ⟨_, hr lx _ ⟨s1, h1, rfl⟩ (fun hmem => hn rfl _ hmem sK lx s1 hb h1 rfl)⟩
+
+/-- `[ON <name>]` in free spelling. Absent (which denotes the empty name) one token is looked at
+and pushed back. -/
+theorem parseOnDb_render (s : PState) (c : Option (Render.Gap × Str × Render.Gap × NameSpelling)) (db k : Str)
+    (hc : c = none → db = []) (hL : Legal (onPieces c db) k) (hs : s.Before (render (onPieces c db) ++ k)) :
+    ∃ sK, sK.Before k ∧ ReturnsAt parseOnDb s db sK c.isNone [.ON] := by
+  cases c with
+  | none =>
+    have hdb := hc rfl
+    subst hdb
+    refine ⟨s, hs, ?_⟩
+    unfold ReturnsAt
+    rw [if_pos (by rfl)]
+    intro lx s' hp hne
+    unfold parseOnDb
+    rw [P.run_bind _ _ s false s' (optTok_absent .ON hp (by simpa using hne))]
+    rfl
+  | some c =>
+    obtain ⟨g1, on, g2, sp⟩ := c
+    obtain ⟨s1, h1, b1⟩ := optTok_of (t := .ON) (L := []) (step s g1 _ _ k hL hs.around)
+    obtain ⟨s2, h2, b2⟩ := parseIdent_of (name := db) (step s1 g2 _ _ k hL.tail b1.around)
+    refine ⟨s2, b2, ?_⟩
+    unfold ReturnsAt
+    rw [if_neg (by simp)]
+    unfold parseOnDb
+    rw [P.run_bind _ _ s true s1 h1]
+    exact h2
+
+/-- **SHOW RETENTION POLICIES [ON db] in free spelling.** -/
+theorem showRetentionPolicies_render_parse (fuel : Nat) (s : PState)
+    (c : Option (Render.Gap × Str × Render.Gap × NameSpelling)) (db k : Str) (hc : c = none → db = [])
+    (hL : Legal (onPieces c db) k) (hs : s.Before (render (onPieces c db) ++ k)) :
+    ∃ sK, sK.Before k ∧
+      ReturnsAt (runHandler fuel .parseShowRetentionPoliciesStatement) s (.showRetentionPolicies db) sK c.isNone [.ON] := by
+  obtain ⟨sK, hb, hr⟩ := parseOnDb_render s c db k hc hL hs
+  refine ⟨sK, hb, ?_⟩
+  unfold ReturnsAt at hr ⊢
+  simp only [runHandler, parseShowRetentionPolicies]
+  split
+  · next hp =>
+    rw [if_pos hp] at hr
+    intro lx s' h1 h2
+    rw [P.run_bind _ _ s db s' (hr lx s' h1 h2)]; rfl
+  · next hp =>
+    rw [if_neg hp] at hr
+    rw [P.run_bind _ _ s db sK hr]; rfl
+
+/-- **SHOW RETENTION POLICIES [ON db], from the first character** (without the clause the text that
+follows must not start with `ON`; the end of the input qualifies: `nextNot_eof`). -/
+theorem showRetentionPolicies_statement_render_parse (text : Str) (params : List (Str × BoundValue))
+    (tbl : List (Char × Char)) (ks : List (Render.Gap × Str)) (hks : ks.length = 3)
+    (c : Option (Render.Gap × Str × Render.Gap × NameSpelling)) (db k' : Str) (hc : c = none → db = [])
+    (hfold : foldCR text = render (kwPieces [.SHOW, .RETENTION, .POLICIES] ks ++ onPieces c db) ++ k')
+    (hL : Legal (kwPieces [.SHOW, .RETENTION, .POLICIES] ks ++ onPieces c db) (k' ++ [eofRune]))
+    (hnext : c = none → NextNot (k' ++ [eofRune]) .ON) :
+    parseStatementText text params tbl = .ok (.showRetentionPolicies db) := by
+  refine statement_of_family text params tbl [.SHOW, .RETENTION, .POLICIES] .parseShowRetentionPoliciesStatement (by simp [familyPaths]) ks hks _ k' _
+    hfold hL ?_
+  intro s hs hL2
+  obtain ⟨sK, hb, hr⟩ := showRetentionPolicies_render_parse _ s c db _ hc hL2 hs
+  refine run_of_returnsAt hr hb ?_
+  intro hp t ht
+  simp only [List.mem_cons, List.not_mem_nil, or_false] at ht
+  subst ht
+  exact hnext (by cases c <;> simp_all)
+
+/-- **KILL QUERY n [ON host] in free spelling**: the query id may carry leading zeros. -/
+theorem killQuery_render_parse (fuel : Nat) (s : PState) (g : Render.Gap) (z qid : Nat)
+    (c : Option (Render.Gap × Str × Render.Gap × NameSpelling)) (host k : Str) (hq : (qid : Int) ≤ maxUInt64)
+    (hc : c = none → host = []) (hL : Legal ((g, .int z qid) :: onPieces c host) k)
+    (hs : s.Before (render ((g, .int z qid) :: onPieces c host) ++ k)) :
+    ∃ sK, sK.Before k ∧
+      ReturnsAt (runHandler fuel .parseKillQueryStatement) s (.killQuery qid host) sK c.isNone [.ON] := by
+  obtain ⟨s1, h1, b1⟩ := parseUInt64_of (z := z) (n := qid) hq (step s g _ _ k hL hs.around)
+  obtain ⟨sK, hb, hr⟩ := parseOnDb_render s1 c host k hc hL.tail b1
+  refine ⟨sK, hb, ?_⟩
+  unfold ReturnsAt at hr ⊢
+  simp only [runHandler, parseKillQuery]
+  split
+  · next hp =>
+    rw [if_pos hp] at hr
+    intro lx s' h2 h3
+    rw [P.run_bind _ _ s qid s1 h1, P.run_bind _ _ s1 host s' (hr lx s' h2 h3)]; rfl
+  · next hp =>
+    rw [if_neg hp] at hr
+    rw [P.run_bind _ _ s qid s1 h1, P.run_bind _ _ s1 host sK hr]; rfl
+
+/-- **KILL QUERY, from the first character.** -/
+theorem killQuery_statement_render_parse (text : Str) (params : List (Str × BoundValue))
+    (tbl : List (Char × Char)) (ks : List (Render.Gap × Str)) (hks : ks.length = 2) (g : Render.Gap) (z qid : Nat)
+    (c : Option (Render.Gap × Str × Render.Gap × NameSpelling)) (host k' : Str) (hq : (qid : Int) ≤ maxUInt64)
+    (hc : c = none → host = [])
+    (hfold : foldCR text = render (kwPieces [.KILL, .QUERY] ks ++ (g, .int z qid) :: onPieces c host) ++ k')
+    (hL : Legal (kwPieces [.KILL, .QUERY] ks ++ (g, .int z qid) :: onPieces c host) (k' ++ [eofRune]))
+    (hnext : c = none → NextNot (k' ++ [eofRune]) .ON) :
+    parseStatementText text params tbl = .ok (.killQuery qid host) := by
+  refine statement_of_family text params tbl [.KILL, .QUERY] .parseKillQueryStatement (by simp [familyPaths]) ks hks _ k' _
+    hfold hL ?_
+  intro s hs hL2
+  obtain ⟨sK, hb, hr⟩ := killQuery_render_parse _ s g z qid c host _ hq hc hL2 hs
+  refine run_of_returnsAt hr hb ?_
+  intro hp t ht
+  simp only [List.mem_cons, List.not_mem_nil, or_false] at ht
+  subst ht
+  exact hnext (by cases c <;> simp_all)
+
+/-- **DROP SHARD n in free spelling** (leading zeros accepted). -/
+theorem dropShard_render_parse (fuel : Nat) (s : PState) (g : Render.Gap) (z id : Nat) (k : Str)
+    (hid : (id : Int) ≤ maxUInt64) (hL : Legal [(g, .int z id)] k) (hs : s.Before (render [(g, .int z id)] ++ k)) :
+    ∃ s', (runHandler fuel .parseDropShardStatement).run s = .ok (.dropShard id, s') ∧ s'.Before k := by
+  obtain ⟨s1, h1, b1⟩ := parseUInt64_of (z := z) (n := id) hid (step s g _ _ k hL hs.around)
+  refine ⟨s1, ?_, b1⟩
+  simp only [runHandler]
+  rw [P.run_bind _ _ s id s1 h1]; rfl
+
+/-- **DROP SHARD, from the first character.** -/
+theorem dropShard_statement_render_parse (text : Str) (params : List (Str × BoundValue))
+    (tbl : List (Char × Char)) (ks : List (Render.Gap × Str)) (hks : ks.length = 2) (g : Render.Gap) (z id : Nat) (k' : Str)
+    (hid : (id : Int) ≤ maxUInt64)
+    (hfold : foldCR text = render (kwPieces [.DROP, .SHARD] ks ++ [(g, .int z id)]) ++ k')
+    (hL : Legal (kwPieces [.DROP, .SHARD] ks ++ [(g, .int z id)]) (k' ++ [eofRune])) :
+    parseStatementText text params tbl = .ok (.dropShard id) := by
+  refine statement_of_family text params tbl [.DROP, .SHARD] .parseDropShardStatement (by simp [familyPaths]) ks hks _ k' _
+    hfold hL ?_
+  intro s hs hL2
+  obtain ⟨s', h1, _⟩ := dropShard_render_parse _ s g z id _ hid hL2 hs
+  exact ⟨s', h1⟩
+
+/-! ### CREATE USER, SET PASSWORD -/
+
+/-- The optional `WITH ALL PRIVILEGES`: three gaps and three keyword spellings. -/
+def adminPieces : Option (Render.Gap × Str × Render.Gap × Str × Render.Gap × Str) → List (Render.Gap × Piece)
+  | none => []
+  | some (g1, w1, g2, w2, g3, w3) => [(g1, .kw .WITH w1), (g2, .kw .ALL w2), (g3, .kw .PRIVILEGES w3)]
+
+/-- `<name> WITH PASSWORD '<pw>' [WITH ALL PRIVILEGES]`. -/
+def createUserPieces (g1 : Render.Gap) (sp : NameSpelling) (g2 : Render.Gap) (w1 : Str) (g3 : Render.Gap) (w2 : Str) (g4 : Render.Gap)
+    (c : Option (Render.Gap × Str × Render.Gap × Str × Render.Gap × Str)) (name pw : Str) : List (Render.Gap × Piece) :=
+  (g1, .name sp name) :: (g2, .kw .WITH w1) :: (g3, .kw .PASSWORD w2) :: (g4, .str pw) :: adminPieces c
+
+/-- **CREATE USER in free spelling** (the password is the string literal written). -/
+theorem createUser_render_parse (fuel : Nat) (s : PState) (g1 : Render.Gap) (sp : NameSpelling) (g2 : Render.Gap) (w1 : Str)
+    (g3 : Render.Gap) (w2 : Str) (g4 : Render.Gap) (c : Option (Render.Gap × Str × Render.Gap × Str × Render.Gap × Str))
+    (name pw k : Str) (hL : Legal (createUserPieces g1 sp g2 w1 g3 w2 g4 c name pw) k)
+    (hs : s.Before (render (createUserPieces g1 sp g2 w1 g3 w2 g4 c name pw) ++ k)) :
+    ∃ sK, sK.Before k ∧
+      ReturnsAt (runHandler fuel .parseCreateUserStatement) s (.createUser name pw c.isSome) sK c.isNone [.WITH] := by
+  obtain ⟨s1, h1, b1⟩ := parseIdent_of (name := name) (step s g1 _ _ k hL hs.around)
+  obtain ⟨s2, h2, b2⟩ := parseTokens_cons_of (t := .WITH) (L := []) [.PASSWORD] (step s1 g2 _ _ k hL.tail b1.around)
+  obtain ⟨s3, h3, b3⟩ := parseTokens_cons_of (t := .PASSWORD) (L := []) [] (step s2 g3 _ _ k hL.tail.tail b2.around)
+  have h23 : (parseTokens [.WITH, .PASSWORD]).run s1 = .ok ((), s3) := by rw [h2, h3]; rfl
+  obtain ⟨s4, h4, b4⟩ := parseString_of (v := pw) (step s3 g4 _ _ k hL.tail.tail.tail b3.around)
+  have hL4 := hL.tail.tail.tail.tail
+  simp only [runHandler, parseCreateUser]
+  cases c with
+  | none =>
+    refine ⟨s4, b4, ?_⟩
+    unfold ReturnsAt
+    rw [if_pos (by rfl)]
+    intro lx s' hp hne
+    rw [P.run_bind _ _ s name s1 h1, P.run_bind _ _ s1 () s3 h23, P.run_bind _ _ s3 pw s4 h4,
+      P.run_bind _ _ s4 false s' (optTok_absent .WITH hp (by simpa using hne))]
+    rfl
+  | some c =>
+    obtain ⟨g5, w3, g6, w4, g7, w5⟩ := c
+    obtain ⟨s5, h5, b5⟩ := optTok_of (t := .WITH) (L := []) (step s4 g5 _ _ k hL4 b4.around)
+    obtain ⟨s6, h6, b6⟩ := parseTokens_cons_of (t := .ALL) (L := []) [.PRIVILEGES] (step s5 g6 _ _ k hL4.tail b5.around)
+    obtain ⟨s7, h7, b7⟩ := parseTokens_cons_of (t := .PRIVILEGES) (L := []) [] (step s6 g7 _ _ k hL4.tail.tail b6.around)
+    have h67 : (parseTokens [.ALL, .PRIVILEGES]).run s5 = .ok ((), s7) := by rw [h6, h7]; rfl
+    refine ⟨s7, b7, ReturnsAt.exact ?_⟩
+    rw [P.run_bind _ _ s name s1 h1, P.run_bind _ _ s1 () s3 h23, P.run_bind _ _ s3 pw s4 h4,
+      P.run_bind _ _ s4 true s5 h5]
+    simp only [if_true]
+    rw [P.run_bind _ _ s5 () s7 h67]
+    rfl
+
+/-- **CREATE USER, from the first character.** -/
+theorem createUser_statement_render_parse (text : Str) (params : List (Str × BoundValue))
+    (tbl : List (Char × Char)) (ks : List (Render.Gap × Str)) (hks : ks.length = 2) (g1 : Render.Gap) (sp : NameSpelling)
+    (g2 : Render.Gap) (w1 : Str) (g3 : Render.Gap) (w2 : Str) (g4 : Render.Gap)
+    (c : Option (Render.Gap × Str × Render.Gap × Str × Render.Gap × Str)) (name pw k' : Str)
+    (hfold : foldCR text = render (kwPieces [.CREATE, .USER] ks ++ createUserPieces g1 sp g2 w1 g3 w2 g4 c name pw) ++ k')
+    (hL : Legal (kwPieces [.CREATE, .USER] ks ++ createUserPieces g1 sp g2 w1 g3 w2 g4 c name pw) (k' ++ [eofRune]))
+    (hnext : c = none → NextNot (k' ++ [eofRune]) .WITH) :
+    parseStatementText text params tbl = .ok (.createUser name pw c.isSome) := by
+  refine statement_of_family text params tbl [.CREATE, .USER] .parseCreateUserStatement (by simp [familyPaths]) ks hks _ k' _
+    hfold hL ?_
+  intro s hs hL2
+  obtain ⟨sK, hb, hr⟩ := createUser_render_parse _ s g1 sp g2 w1 g3 w2 g4 c name pw _ hL2 hs
+  refine run_of_returnsAt hr hb ?_
+  intro hp t ht
+  simp only [List.mem_cons, List.not_mem_nil, or_false] at ht
+  subst ht
+  exact hnext (by cases c <;> simp_all)
+
+/-- `<name> = '<pw>'` (after `SET PASSWORD FOR`); the gaps around `=` may be empty. -/
+def setPasswordPieces (g1 : Render.Gap) (sp : NameSpelling) (g2 g3 : Render.Gap) (name pw : Str) : List (Render.Gap × Piece) :=
+  [(g1, .name sp name), (g2, .eq), (g3, .str pw)]
+
+/-- **SET PASSWORD FOR name = 'pw' in free spelling.** -/
+theorem setPassword_render_parse (fuel : Nat) (s : PState) (g1 : Render.Gap) (sp : NameSpelling) (g2 g3 : Render.Gap)
+    (name pw k : Str) (hL : Legal (setPasswordPieces g1 sp g2 g3 name pw) k)
+    (hs : s.Before (render (setPasswordPieces g1 sp g2 g3 name pw) ++ k)) :
+    ∃ s', (runHandler fuel .parseSetPasswordUserStatement).run s = .ok (.setPasswordUser pw name, s') ∧
+      s'.Before k := by
+  obtain ⟨s1, h1, b1⟩ := parseIdent_of (name := name) (step s g1 _ _ k hL hs.around)
+  obtain ⟨s2, h2, b2⟩ := expectTok_of (t := .EQ) (L := []) ["="] (step s1 g2 _ _ k hL.tail b1.around)
+  obtain ⟨s3, h3, b3⟩ := parseString_of (v := pw) (step s2 g3 _ _ k hL.tail.tail b2.around)
+  refine ⟨s3, ?_, b3⟩
+  simp only [runHandler, parseSetPasswordUser]
+  rw [P.run_bind _ _ s name s1 h1, P.run_bind _ _ s1 () s2 h2, P.run_bind _ _ s2 pw s3 h3]
+  rfl
+
+/-- **SET PASSWORD, from the first character.** -/
+theorem setPassword_statement_render_parse (text : Str) (params : List (Str × BoundValue))
+    (tbl : List (Char × Char)) (ks : List (Render.Gap × Str)) (hks : ks.length = 3) (g1 : Render.Gap) (sp : NameSpelling)
+    (g2 g3 : Render.Gap) (name pw k' : Str)
+    (hfold : foldCR text = render (kwPieces [.SET, .PASSWORD, .FOR] ks ++ setPasswordPieces g1 sp g2 g3 name pw) ++ k')
+    (hL : Legal (kwPieces [.SET, .PASSWORD, .FOR] ks ++ setPasswordPieces g1 sp g2 g3 name pw) (k' ++ [eofRune])) :
+    parseStatementText text params tbl = .ok (.setPasswordUser pw name) := by
+  refine statement_of_family text params tbl [.SET, .PASSWORD, .FOR] .parseSetPasswordUserStatement (by simp [familyPaths]) ks hks _ k' _
+    hfold hL ?_
+  intro s hs hL2
+  obtain ⟨s', h1, _⟩ := setPassword_render_parse _ s g1 sp g2 g3 name pw _ hL2 hs
+  exact ⟨s', h1⟩
+
+/-! ### GRANT, REVOKE -/
+
+/-- How a privilege is written: `READ`, `WRITE`, `ALL PRIVILEGES`, or `ALL` alone (the grammar's
+`ALL [PRIVILEGES]`), keywords in any case after any gaps. -/
+inductive PrivSpelling where
+  | read (g : Render.Gap) (w : Str)
+  | write (g : Render.Gap) (w : Str)
+  | allPrivileges (g1 : Render.Gap) (w1 : Str) (g2 : Render.Gap) (w2 : Str)
+  | all (g : Render.Gap) (w : Str)
+
+def PrivSpelling.pieces : PrivSpelling → List (Render.Gap × Piece)
+  | .read g w => [(g, .kw .READ w)]
+  | .write g w => [(g, .kw .WRITE w)]
+  | .allPrivileges g1 w1 g2 w2 => [(g1, .kw .ALL w1), (g2, .kw .PRIVILEGES w2)]
+  | .all g w => [(g, .kw .ALL w)]
+
+/-- The privilege denoted. -/
+def PrivSpelling.priv : PrivSpelling → Privilege
+  | .read _ _ => .read
+  | .write _ _ => .write
+  | .allPrivileges _ _ _ _ => .all
+  | .all _ _ => .all
+
+/-- `parsePrivilege` on a freely spelled privilege followed by a piece that is not `PRIVILEGES`
+(after `ALL` alone the next token is looked at and pushed back: the parser is `Around` the rest). -/
+theorem parsePrivilege_render (s : PState) (ps : PrivSpelling) (g : Render.Gap) (p : Piece) (l : List (Render.Gap × Piece))
+    (k : Str) (hne : p.tok ≠ .PRIVILEGES) (hL : Legal (ps.pieces ++ (g, p) :: l) k)
+    (hs : s.Before (render (ps.pieces ++ (g, p) :: l) ++ k)) :
+    ∃ s', parsePrivilege.run s = .ok (ps.priv, s') ∧ s'.Around (render ((g, p) :: l) ++ k) := by
+  cases ps with
+  | read g0 w =>
+    obtain ⟨lx, s1, h1, t1, _, b1⟩ := step s g0 (.kw .READ w) _ k hL hs.around
+    refine ⟨s1, ?_, b1.around⟩
+    unfold parsePrivilege
+    rw [P.run_bind _ _ s lx s1 h1]
+    simp only [t1, Piece.tok]
+    rfl
+  | write g0 w =>
+    obtain ⟨lx, s1, h1, t1, _, b1⟩ := step s g0 (.kw .WRITE w) _ k hL hs.around
+    refine ⟨s1, ?_, b1.around⟩
+    unfold parsePrivilege
+    rw [P.run_bind _ _ s lx s1 h1]
+    simp only [t1, Piece.tok]
+    rfl
+  | allPrivileges g1 w1 g2 w2 =>
+    obtain ⟨lx, s1, h1, t1, _, b1⟩ := step s g1 (.kw .ALL w1) _ k hL hs.around
+    obtain ⟨lx2, s2, h2, t2, _, b2⟩ := step s1 g2 (.kw .PRIVILEGES w2) _ k hL.tail b1.around
+    refine ⟨s2, ?_, b2.around⟩
+    unfold parsePrivilege
+    rw [P.run_bind _ _ s lx s1 h1]
+    simp only [t1, Piece.tok]
+    rw [P.run_bind _ _ s1 lx2 s2 h2]
+    simp only [t2, Piece.tok, ne_eq, not_true_eq_false, if_false]
+    rfl
+  | all g0 w =>
+    obtain ⟨lx, s1, h1, t1, _, b1⟩ := step s g0 (.kw .ALL w) _ k hL hs.around
+    obtain ⟨lx2, s2, h2, t2, _, _⟩ := step s1 g p l k hL.tail b1.around
+    refine ⟨{ s2 with n := s2.n + 1 }, ?_, s1, b1, Or.inr ⟨lx2, s2, h2, rfl⟩⟩
+    have hne2 : lx2.tok ≠ .PRIVILEGES := by rw [t2]; exact hne
+    unfold parsePrivilege
+    rw [P.run_bind _ _ s lx s1 h1]
+    simp only [t1, Piece.tok]
+    rw [P.run_bind _ _ s1 lx2 s2 h2]
+    simp only [ne_eq, hne2, not_false_eq_true, if_true]
+    rw [P.run_bind _ _ s2 () _ (unscan_run s2)]
+    rfl
+
+/-- `<privilege> ON <db> TO <user>`. -/
+def grantPieces (ps : PrivSpelling) (g1 : Render.Gap) (w1 : Str) (g2 : Render.Gap) (sp1 : NameSpelling) (g3 : Render.Gap) (w2 : Str)
+    (g4 : Render.Gap) (sp2 : NameSpelling) (on user : Str) : List (Render.Gap × Piece) :=
+  ps.pieces ++ [(g1, .kw .ON w1), (g2, .name sp1 on), (g3, .kw .TO w2), (g4, .name sp2 user)]
+
+/-- `ALL [PRIVILEGES] TO <user>`. -/
+def grantAdminPieces (ps : PrivSpelling) (g1 : Render.Gap) (w : Str) (g2 : Render.Gap) (sp : NameSpelling) (user : Str) :
+    List (Render.Gap × Piece) :=
+  ps.pieces ++ [(g1, .kw .TO w), (g2, .name sp user)]
+
+/-- **GRANT <privilege> ON <db> TO <user> in free spelling** (`READ`, `WRITE`, `ALL`, `ALL PRIVILEGES`). -/
+theorem grant_render_parse (fuel : Nat) (s : PState) (ps : PrivSpelling) (g1 : Render.Gap) (w1 : Str) (g2 : Render.Gap)
+    (sp1 : NameSpelling) (g3 : Render.Gap) (w2 : Str) (g4 : Render.Gap) (sp2 : NameSpelling) (on user k : Str)
+    (hL : Legal (grantPieces ps g1 w1 g2 sp1 g3 w2 g4 sp2 on user) k)
+    (hs : s.Before (render (grantPieces ps g1 w1 g2 sp1 g3 w2 g4 sp2 on user) ++ k)) :
+    ∃ s', (runHandler fuel .parseGrantStatement).run s = .ok (.grant ps.priv on user, s') ∧ s'.Before k := by
+  have hL' := ((legal_append _ _ _).mp hL).2
+  obtain ⟨s1, h1, b1⟩ := parsePrivilege_render s ps g1 (.kw .ON w1) _ k (by simp [Piece.tok]) hL hs
+  obtain ⟨lx, s2, h2, t2, _, b2⟩ := step s1 g1 (.kw .ON w1) _ k hL' b1
+  obtain ⟨s3, h3, b3⟩ := parseIdent_of (name := on) (step s2 g2 _ _ k hL'.tail b2.around)
+  obtain ⟨s4, h4, b4⟩ := expectTok_of (t := .TO) (L := []) ["TO"] (step s3 g3 _ _ k hL'.tail.tail b3.around)
+  obtain ⟨s5, h5, b5⟩ := parseIdent_of (name := user) (step s4 g4 _ _ k hL'.tail.tail.tail b4.around)
+  refine ⟨s5, ?_, b5⟩
+  simp only [runHandler, parseGrant]
+  rw [P.run_bind _ _ s ps.priv s1 h1, P.run_bind _ _ s1 lx s2 h2]
+  simp only [t2, Piece.tok, if_true]
+  rw [P.run_bind _ _ s2 on s3 h3, P.run_bind _ _ s3 () s4 h4, P.run_bind _ _ s4 user s5 h5]
+  rfl
+
+/-- **GRANT ALL [PRIVILEGES] TO <user> in free spelling.** -/
+theorem grantAdmin_render_parse (fuel : Nat) (s : PState) (ps : PrivSpelling) (hp : ps.priv = .all) (g1 : Render.Gap) (w : Str)
+    (g2 : Render.Gap) (sp : NameSpelling) (user k : Str) (hL : Legal (grantAdminPieces ps g1 w g2 sp user) k)
+    (hs : s.Before (render (grantAdminPieces ps g1 w g2 sp user) ++ k)) :
+    ∃ s', (runHandler fuel .parseGrantStatement).run s = .ok (.grantAdmin user, s') ∧ s'.Before k := by
+  have hL' := ((legal_append _ _ _).mp hL).2
+  obtain ⟨s1, h1, b1⟩ := parsePrivilege_render s ps g1 (.kw .TO w) _ k (by simp [Piece.tok]) hL hs
+  obtain ⟨lx, s2, h2, t2, _, b2⟩ := step s1 g1 (.kw .TO w) _ k hL' b1
+  obtain ⟨s3, h3, b3⟩ := parseIdent_of (name := user) (step s2 g2 _ _ k hL'.tail b2.around)
+  refine ⟨s3, ?_, b3⟩
+  simp only [runHandler, parseGrant]
+  rw [P.run_bind _ _ s ps.priv s1 h1, P.run_bind _ _ s1 lx s2 h2]
+  simp only [t2, Piece.tok, hp, reduceCtorEq, if_false, if_true, ne_eq, not_true_eq_false]
+  rw [P.run_bind _ _ s2 user s3 h3]
+  rfl
+
+/-- `<privilege> ON <db> FROM <user>`. -/
+def revokePieces (ps : PrivSpelling) (g1 : Render.Gap) (w1 : Str) (g2 : Render.Gap) (sp1 : NameSpelling) (g3 : Render.Gap) (w2 : Str)
+    (g4 : Render.Gap) (sp2 : NameSpelling) (on user : Str) : List (Render.Gap × Piece) :=
+  ps.pieces ++ [(g1, .kw .ON w1), (g2, .name sp1 on), (g3, .kw .FROM w2), (g4, .name sp2 user)]
+
+/-- `ALL [PRIVILEGES] FROM <user>`. -/
+def revokeAdminPieces (ps : PrivSpelling) (g1 : Render.Gap) (w : Str) (g2 : Render.Gap) (sp : NameSpelling) (user : Str) :
+    List (Render.Gap × Piece) :=
+  ps.pieces ++ [(g1, .kw .FROM w), (g2, .name sp user)]
+
+/-- **REVOKE <privilege> ON <db> FROM <user> in free spelling.** -/
+theorem revoke_render_parse (fuel : Nat) (s : PState) (ps : PrivSpelling) (g1 : Render.Gap) (w1 : Str) (g2 : Render.Gap)
+    (sp1 : NameSpelling) (g3 : Render.Gap) (w2 : Str) (g4 : Render.Gap) (sp2 : NameSpelling) (on user k : Str)
+    (hL : Legal (revokePieces ps g1 w1 g2 sp1 g3 w2 g4 sp2 on user) k)
+    (hs : s.Before (render (revokePieces ps g1 w1 g2 sp1 g3 w2 g4 sp2 on user) ++ k)) :
+    ∃ s', (runHandler fuel .parseRevokeStatement).run s = .ok (.revoke ps.priv on user, s') ∧ s'.Before k := by
+  have hL' := ((legal_append _ _ _).mp hL).2
+  obtain ⟨s1, h1, b1⟩ := parsePrivilege_render s ps g1 (.kw .ON w1) _ k (by simp [Piece.tok]) hL hs
+  obtain ⟨lx, s2, h2, t2, _, b2⟩ := step s1 g1 (.kw .ON w1) _ k hL' b1
+  obtain ⟨s3, h3, b3⟩ := parseIdent_of (name := on) (step s2 g2 _ _ k hL'.tail b2.around)
+  obtain ⟨s4, h4, b4⟩ := expectTok_of (t := .FROM) (L := []) ["FROM"] (step s3 g3 _ _ k hL'.tail.tail b3.around)
+  obtain ⟨s5, h5, b5⟩ := parseIdent_of (name := user) (step s4 g4 _ _ k hL'.tail.tail.tail b4.around)
+  refine ⟨s5, ?_, b5⟩
+  simp only [runHandler, parseRevoke]
+  rw [P.run_bind _ _ s ps.priv s1 h1, P.run_bind _ _ s1 lx s2 h2]
+  simp only [t2, Piece.tok, if_true]
+  rw [P.run_bind _ _ s2 on s3 h3, P.run_bind _ _ s3 () s4 h4, P.run_bind _ _ s4 user s5 h5]
+  rfl
+
+/-- **REVOKE ALL [PRIVILEGES] FROM <user> in free spelling.** -/
+theorem revokeAdmin_render_parse (fuel : Nat) (s : PState) (ps : PrivSpelling) (hp : ps.priv = .all) (g1 : Render.Gap) (w : Str)
+    (g2 : Render.Gap) (sp : NameSpelling) (user k : Str) (hL : Legal (revokeAdminPieces ps g1 w g2 sp user) k)
+    (hs : s.Before (render (revokeAdminPieces ps g1 w g2 sp user) ++ k)) :
+    ∃ s', (runHandler fuel .parseRevokeStatement).run s = .ok (.revokeAdmin user, s') ∧ s'.Before k := by
+  have hL' := ((legal_append _ _ _).mp hL).2
+  obtain ⟨s1, h1, b1⟩ := parsePrivilege_render s ps g1 (.kw .FROM w) _ k (by simp [Piece.tok]) hL hs
+  obtain ⟨lx, s2, h2, t2, _, b2⟩ := step s1 g1 (.kw .FROM w) _ k hL' b1
+  obtain ⟨s3, h3, b3⟩ := parseIdent_of (name := user) (step s2 g2 _ _ k hL'.tail b2.around)
+  refine ⟨s3, ?_, b3⟩
+  simp only [runHandler, parseRevoke]
+  rw [P.run_bind _ _ s ps.priv s1 h1, P.run_bind _ _ s1 lx s2 h2]
+  simp only [t2, Piece.tok, hp, reduceCtorEq, if_false, if_true, ne_eq, not_true_eq_false]
+  rw [P.run_bind _ _ s2 user s3 h3]
+  rfl
+
+/-- **GRANT / REVOKE, from the first character**: the four statement forms. -/
+theorem grantRevoke_statement_render_parse (text : Str) (params : List (Str × BoundValue)) (tbl : List (Char × Char))
+    (g0 : Render.Gap) (w0 : Str) (ps : PrivSpelling) (g1 : Render.Gap) (w1 : Str) (g2 : Render.Gap) (sp1 : NameSpelling) (g3 : Render.Gap)
+    (w2 : Str) (g4 : Render.Gap) (sp2 : NameSpelling) (on user k' : Str) :
+    (foldCR text = render (kwPieces [.GRANT] [(g0, w0)] ++ grantPieces ps g1 w1 g2 sp1 g3 w2 g4 sp2 on user) ++ k' →
+      Legal (kwPieces [.GRANT] [(g0, w0)] ++ grantPieces ps g1 w1 g2 sp1 g3 w2 g4 sp2 on user) (k' ++ [eofRune]) →
+      parseStatementText text params tbl = .ok (.grant ps.priv on user)) ∧
+    (foldCR text = render (kwPieces [.REVOKE] [(g0, w0)] ++ revokePieces ps g1 w1 g2 sp1 g3 w2 g4 sp2 on user) ++ k' →
+      Legal (kwPieces [.REVOKE] [(g0, w0)] ++ revokePieces ps g1 w1 g2 sp1 g3 w2 g4 sp2 on user) (k' ++ [eofRune]) →
+      parseStatementText text params tbl = .ok (.revoke ps.priv on user)) ∧
+    (ps.priv = .all →
+      foldCR text = render (kwPieces [.GRANT] [(g0, w0)] ++ grantAdminPieces ps g1 w1 g2 sp1 user) ++ k' →
+      Legal (kwPieces [.GRANT] [(g0, w0)] ++ grantAdminPieces ps g1 w1 g2 sp1 user) (k' ++ [eofRune]) →
+      parseStatementText text params tbl = .ok (.grantAdmin user)) ∧
+    (ps.priv = .all →
+      foldCR text = render (kwPieces [.REVOKE] [(g0, w0)] ++ revokeAdminPieces ps g1 w1 g2 sp1 user) ++ k' →
+      Legal (kwPieces [.REVOKE] [(g0, w0)] ++ revokeAdminPieces ps g1 w1 g2 sp1 user) (k' ++ [eofRune]) →
+      parseStatementText text params tbl = .ok (.revokeAdmin user)) := by
+  refine ⟨?_, ?_, ?_, ?_⟩
+  · intro hfold hL
+    refine statement_of_family text params tbl [.GRANT] .parseGrantStatement (by simp [familyPaths]) _ rfl _ k' _
+      hfold hL ?_
+    intro s hs hL2
+    obtain ⟨s', h1, _⟩ := grant_render_parse _ s ps g1 w1 g2 sp1 g3 w2 g4 sp2 on user _ hL2 hs
+    exact ⟨s', h1⟩
+  · intro hfold hL
+    refine statement_of_family text params tbl [.REVOKE] .parseRevokeStatement (by simp [familyPaths]) _ rfl _ k' _
+      hfold hL ?_
+    intro s hs hL2
+    obtain ⟨s', h1, _⟩ := revoke_render_parse _ s ps g1 w1 g2 sp1 g3 w2 g4 sp2 on user _ hL2 hs
+    exact ⟨s', h1⟩
+  · intro hp hfold hL
+    refine statement_of_family text params tbl [.GRANT] .parseGrantStatement (by simp [familyPaths]) _ rfl _ k' _
+      hfold hL ?_
+    intro s hs hL2
+    obtain ⟨s', h1, _⟩ := grantAdmin_render_parse _ s ps hp g1 w1 g2 sp1 user _ hL2 hs
+    exact ⟨s', h1⟩
+  · intro hp hfold hL
+    refine statement_of_family text params tbl [.REVOKE] .parseRevokeStatement (by simp [familyPaths]) _ rfl _ k' _
+      hfold hL ?_
+    intro s hs hL2
+    obtain ⟨s', h1, _⟩ := revokeAdmin_render_parse _ s ps hp g1 w1 g2 sp1 user _ hL2 hs
+    exact ⟨s', h1⟩
+
+/-! ### CREATE RETENTION POLICY -/
+
+/-- The optional `SHARD DURATION <literal>` (`INF` is rejected there by the parser). -/
+def shardPieces : Option (Render.Gap × Str × Render.Gap × Str × Render.Gap × Str) → List (Render.Gap × Piece)
+  | none => []
+  | some (g1, w1, g2, w2, g3, lit) => [(g1, .kw .SHARD w1), (g2, .kw .DURATION w2), (g3, .dur lit)]
+
+/-- The optional `DEFAULT`. -/
+def defaultPieces : Option (Render.Gap × Str) → List (Render.Gap × Piece)
+  | none => []
+  | some (g, w) => [(g, .kw .DEFAULT w)]
+
+/-- The optional `FUTURE LIMIT <duration>` / `PAST LIMIT <duration>`. -/
+def limitPieces (t : Token) : Option (Render.Gap × Str × Render.Gap × Str × Render.Gap × DurSpelling) → List (Render.Gap × Piece)
+  | none => []
+  | some (g1, w1, g2, w2, g3, ds) => [(g1, .kw t w1), (g2, .kw .LIMIT w2), (g3, ds.piece)]
+
+/-- Absent means zero; present, the value `ParseDuration` gives the literal. -/
+def ShardDenotes : Option (Render.Gap × Str × Render.Gap × Str × Render.Gap × Str) → Int → Prop
+  | none, v => v = 0
+  | some (_, _, _, _, _, lit), v => parseDuration lit = .ok v
+
+def LimitDenotes : Option (Render.Gap × Str × Render.Gap × Str × Render.Gap × DurSpelling) → Int → Prop
+  | none, v => v = 0
+  | some (_, _, _, _, _, ds), v => ds.Denotes v
+
+theorem headTokIn_shard (c) : HeadTokIn (shardPieces c) [.SHARD] := by
+  cases c with
+  | none => exact .nil _
+  | some c => obtain ⟨g1, w1, g2, w2, g3, lit⟩ := c; exact .cons _ _ _ _ (by simp [Piece.tok])
+
+theorem headTokIn_default (c) : HeadTokIn (defaultPieces c) [.DEFAULT] := by
+  cases c with
+  | none => exact .nil _
+  | some c => obtain ⟨g, w⟩ := c; exact .cons _ _ _ _ (by simp [Piece.tok])
+
+theorem headTokIn_limit (t : Token) (c) : HeadTokIn (limitPieces t c) [t] := by
+  cases c with
+  | none => exact .nil _
+  | some c => obtain ⟨g1, w1, g2, w2, g3, ds⟩ := c; exact .cons _ _ _ _ (by simp [Piece.tok])
+
+/-- The optional `SHARD DURATION` clause in free spelling. -/
+theorem crp_shard_render (s : PState) (c : Option (Render.Gap × Str × Render.Gap × Str × Render.Gap × Str)) (sh : Int)
+    (rest : List (Render.Gap × Piece)) (k : Str) (ts : List Token) (hv : ShardDenotes c sh)
+    (hL : Legal (shardPieces c ++ rest) k) (hs : s.Around (render (shardPieces c ++ rest) ++ k))
+    (hh : HeadTokIn rest ts) (hts : Token.SHARD ∉ ts) (hk : NextNot k .SHARD) :
+    ∃ s', (do
+        if ← optTok .SHARD then
+          expectTok .DURATION ["DURATION"]
+          parseShardDuration
+        else pure 0 : P Int).run s = .ok (sh, s') ∧ s'.Around (render rest ++ k) := by
+  cases c with
+  | none =>
+    have hv' : sh = 0 := hv
+    subst hv'
+    obtain ⟨s1, h1, b1⟩ := optTok_absent_render .SHARD s rest k ts hs hL hh hts hk
+    refine ⟨s1, ?_, b1⟩
+    rw [P.run_bind _ _ s false s1 h1]
+    rfl
+  | some c =>
+    obtain ⟨g1, w1, g2, w2, g3, lit⟩ := c
+    have hv' : parseDuration lit = .ok sh := hv
+    obtain ⟨s1, h1, b1⟩ := optTok_of (t := .SHARD) (L := []) (step s g1 _ _ k hL hs)
+    obtain ⟨s2, h2, b2⟩ := expectTok_of (t := .DURATION) (L := []) ["DURATION"] (step s1 g2 _ _ k hL.tail b1.around)
+    obtain ⟨lx, s3, h3, t3, a3⟩ := peek_step s2 g3 (.dur lit) _ k hL.tail.tail b2.around
+    obtain ⟨s4, h4, b4⟩ := parseDurationTok_of hv' (step _ g3 (.dur lit) _ k hL.tail.tail a3)
+    refine ⟨s4, ?_, b4.around⟩
+    rw [P.run_bind _ _ s true s1 h1]
+    simp only [if_true]
+    rw [P.run_bind _ _ s1 () s2 h2]
+    unfold parseShardDuration
+    rw [P.run_bind _ _ s2 lx s3 h3]
+    simp only [t3, Piece.tok, reduceCtorEq, if_false]
+    rw [P.run_bind _ _ s3 () _ (unscan_run s3)]
+    exact h4
+
+/-- The optional `DEFAULT` in free spelling. -/
+theorem crp_default_render (s : PState) (c : Option (Render.Gap × Str)) (rest : List (Render.Gap × Piece)) (k : Str)
+    (ts : List Token) (hL : Legal (defaultPieces c ++ rest) k) (hs : s.Around (render (defaultPieces c ++ rest) ++ k))
+    (hh : HeadTokIn rest ts) (hts : Token.DEFAULT ∉ ts) (hk : NextNot k .DEFAULT) :
+    ∃ s', (optTok .DEFAULT).run s = .ok (c.isSome, s') ∧ s'.Around (render rest ++ k) := by
+  cases c with
+  | none => exact optTok_absent_render .DEFAULT s rest k ts hs hL hh hts hk
+  | some c =>
+    obtain ⟨g, w⟩ := c
+    obtain ⟨s1, h1, b1⟩ := optTok_of (t := .DEFAULT) (L := []) (step s g _ _ k hL hs)
+    exact ⟨s1, h1, b1.around⟩
+
+/-- The optional `FUTURE LIMIT` / `PAST LIMIT` clause in free spelling. -/
+theorem crp_limit_render (t : Token) (s : PState)
+    (c : Option (Render.Gap × Str × Render.Gap × Str × Render.Gap × DurSpelling)) (v : Int) (rest : List (Render.Gap × Piece))
+    (k : Str) (ts : List Token) (hv : LimitDenotes c v) (hL : Legal (limitPieces t c ++ rest) k)
+    (hs : s.Around (render (limitPieces t c ++ rest) ++ k)) (hh : HeadTokIn rest ts) (hts : t ∉ ts)
+    (hk : NextNot k t) :
+    ∃ s', (do if ← optTok t then parseWriteLimit else pure 0 : P Int).run s = .ok (v, s') ∧
+      s'.Around (render rest ++ k) := by
+  cases c with
+  | none =>
+    have hv' : v = 0 := hv
+    subst hv'
+    obtain ⟨s1, h1, b1⟩ := optTok_absent_render t s rest k ts hs hL hh hts hk
+    refine ⟨s1, ?_, b1⟩
+    rw [P.run_bind _ _ s false s1 h1]
+    rfl
+  | some c =>
+    obtain ⟨g1, w1, g2, w2, g3, ds⟩ := c
+    have hv' : ds.Denotes v := hv
+    obtain ⟨s1, h1, b1⟩ := optTok_of (t := t) (L := []) (step s g1 _ _ k hL hs)
+    obtain ⟨lx, s2, h2, t2, _, b2⟩ := step s1 g2 (.kw .LIMIT w2) _ k hL.tail b1.around
+    obtain ⟨s3, h3, b3⟩ := parseDurationTok_spelled hv' (step s2 g3 ds.piece _ k hL.tail.tail b2.around)
+    refine ⟨s3, ?_, b3.around⟩
+    rw [P.run_bind _ _ s true s1 h1]
+    simp only [if_true]
+    unfold parseWriteLimit
+    rw [P.run_bind _ _ s1 lx s2 h2]
+    simp only [t2, Piece.tok, if_true]
+    exact h3
+
+/-- The choices of the mandatory part `<name> ON <db> DURATION <d> REPLICATION <n>`. -/
+structure CrpHead where
+  g1 : Render.Gap
+  sp1 : NameSpelling
+  g2 : Render.Gap
+  on : Str
+  g3 : Render.Gap
+  sp2 : NameSpelling
+  g4 : Render.Gap
+  duration : Str
+  g5 : Render.Gap
+  dur : DurSpelling
+  g6 : Render.Gap
+  replication : Str
+  g7 : Render.Gap
+  zeros : Nat
+
+/-- What follows `CREATE RETENTION POLICY`: the mandatory part, then the optional clauses in the
+order the parser reads them. -/
+def crpPieces (c : CrpHead) (c1 : Option (Render.Gap × Str × Render.Gap × Str × Render.Gap × Str)) (c2 : Option (Render.Gap × Str))
+    (c3 c4 : Option (Render.Gap × Str × Render.Gap × Str × Render.Gap × DurSpelling)) (name db : Str) (n : Nat) :
+    List (Render.Gap × Piece) :=
+  (c.g1, .name c.sp1 name) :: (c.g2, .kw .ON c.on) :: (c.g3, .name c.sp2 db) :: (c.g4, .kw .DURATION c.duration) ::
+    (c.g5, c.dur.piece) :: (c.g6, .kw .REPLICATION c.replication) :: (c.g7, .int c.zeros n) ::
+    (shardPieces c1 ++ (defaultPieces c2 ++ (limitPieces .FUTURE c3 ++ limitPieces .PAST c4)))
+
+/-- **CREATE RETENTION POLICY in free spelling**, with every combination of the optional clauses.
+The duration is a literal with the value `ParseDuration` gives it, or `INF` (zero); the replication
+factor (leading zeros allowed) lies in `1 … MaxInt32`, the range `ParseInt(1, MaxInt32)` accepts;
+an absent `SHARD DURATION` / `FUTURE LIMIT` / `PAST LIMIT` denotes zero. The handler ends around
+`k` (it looks one token ahead unless the statement ends with `PAST LIMIT`); `k` must not begin with
+a token that opens one of the optional clauses. -/
+theorem createRetentionPolicy_render_parse (fuel : Nat) (s : PState) (c : CrpHead)
+    (c1 : Option (Render.Gap × Str × Render.Gap × Str × Render.Gap × Str)) (c2 : Option (Render.Gap × Str))
+    (c3 c4 : Option (Render.Gap × Str × Render.Gap × Str × Render.Gap × DurSpelling)) (name db : Str) (d : Int) (n : Nat)
+    (sh fu pa : Int) (k : Str) (hd : c.dur.Denotes d) (hn : 1 ≤ n ∧ (n : Int) ≤ maxInt32)
+    (hsh : ShardDenotes c1 sh) (hfu : LimitDenotes c3 fu) (hpa : LimitDenotes c4 pa)
+    (hstop : ∀ t ∈ [Token.SHARD, .DEFAULT, .FUTURE, .PAST], NextNot k t)
+    (hL : Legal (crpPieces c c1 c2 c3 c4 name db n) k)
+    (hs : s.Before (render (crpPieces c c1 c2 c3 c4 name db n) ++ k)) :
+    ∃ s', (runHandler fuel .parseCreateRetentionPolicyStatement).run s =
+        .ok (.createRetentionPolicy name db d (n : Int) c2.isSome sh fu pa, s') ∧ s'.Around k := by
+  obtain ⟨s1, h1, b1⟩ := parseIdent_of (name := name) (step s c.g1 _ _ k hL hs.around)
+  have hL1 := hL.tail
+  obtain ⟨s2, h2, b2⟩ := expectTok_of (t := .ON) (L := []) ["ON"] (step s1 c.g2 _ _ k hL1 b1.around)
+  have hL2 := hL1.tail
+  obtain ⟨s3, h3, b3⟩ := parseIdent_of (name := db) (step s2 c.g3 _ _ k hL2 b2.around)
+  have hL3 := hL2.tail
+  obtain ⟨s4, h4, b4⟩ := expectTok_of (t := .DURATION) (L := []) ["DURATION"] (step s3 c.g4 _ _ k hL3 b3.around)
+  have hL4 := hL3.tail
+  obtain ⟨s5, h5, b5⟩ := parseDurationTok_spelled hd (step s4 c.g5 c.dur.piece _ k hL4 b4.around)
+  have hL5 := hL4.tail
+  obtain ⟨s6, h6, b6⟩ := expectTok_of (t := .REPLICATION) (L := []) ["REPLICATION"] (step s5 c.g6 _ _ k hL5 b5.around)
+  have hL6 := hL5.tail
+  obtain ⟨s7, h7, b7⟩ := parseIntRange_of (z := c.zeros) (n := n) 1 maxInt32 (by omega) hn.2
+    (by have := hn.2; unfold maxInt32 at this; unfold maxInt64; omega) (step s6 c.g7 _ _ k hL6 b6.around)
+  have hL7 := hL6.tail
+  have hL8 := ((legal_append _ _ _).mp hL7).2
+  have hL9 := ((legal_append _ _ _).mp hL8).2
+  have hL10 := ((legal_append _ _ _).mp hL9).2
+  obtain ⟨s8, h8, b8⟩ := crp_shard_render s7 c1 sh _ k _ hsh hL7 b7.around
+    ((headTokIn_default c2).append ((headTokIn_limit .FUTURE c3).append (headTokIn_limit .PAST c4))) (by decide)
+    (hstop _ (by simp))
+  obtain ⟨s9, h9, b9⟩ := crp_default_render s8 c2 _ k _ hL8 b8
+    ((headTokIn_limit .FUTURE c3).append (headTokIn_limit .PAST c4)) (by decide) (hstop _ (by simp))
+  obtain ⟨s10, h10, b10⟩ := crp_limit_render .FUTURE s9 c3 fu _ k _ hfu hL9 b9 (headTokIn_limit .PAST c4) (by decide)
+    (hstop _ (by simp))
+  have hL10' : Legal (limitPieces .PAST c4 ++ []) k := by rw [List.append_nil]; exact hL10
+  obtain ⟨s11, h11, b11⟩ := crp_limit_render .PAST s10 c4 pa [] k [] hpa hL10' (by rw [List.append_nil]; exact b10)
+    (.nil _) (by simp) (hstop _ (by simp))
+  refine ⟨s11, ?_, b11⟩
+  simp only [runHandler, parseCreateRetentionPolicy]
+  rw [P.run_bind _ _ s name s1 h1, P.run_bind _ _ s1 () s2 h2, P.run_bind _ _ s2 db s3 h3,
+    P.run_bind _ _ s3 () s4 h4, P.run_bind _ _ s4 d s5 h5, P.run_bind _ _ s5 () s6 h6,
+    P.run_bind _ _ s6 (n : Int) s7 h7, P.run_bind _ _ s7 sh s8 h8, P.run_bind _ _ s8 c2.isSome s9 h9,
+    P.run_bind _ _ s9 fu s10 h10, P.run_bind _ _ s10 pa s11 h11]
+  rfl
+
+/-- **CREATE RETENTION POLICY, from the first character** (`k'` must not start with `SHARD`,
+`DEFAULT`, `FUTURE`, `PAST`; the end of the input qualifies). -/
+theorem createRetentionPolicy_statement_render_parse (text : Str) (params : List (Str × BoundValue))
+    (tbl : List (Char × Char)) (ks : List (Render.Gap × Str)) (hks : ks.length = 3) (c : CrpHead)
+    (c1 : Option (Render.Gap × Str × Render.Gap × Str × Render.Gap × Str)) (c2 : Option (Render.Gap × Str))
+    (c3 c4 : Option (Render.Gap × Str × Render.Gap × Str × Render.Gap × DurSpelling)) (name db : Str) (d : Int) (n : Nat)
+    (sh fu pa : Int) (k' : Str) (hd : c.dur.Denotes d) (hn : 1 ≤ n ∧ (n : Int) ≤ maxInt32)
+    (hsh : ShardDenotes c1 sh) (hfu : LimitDenotes c3 fu) (hpa : LimitDenotes c4 pa)
+    (hstop : ∀ t ∈ [Token.SHARD, .DEFAULT, .FUTURE, .PAST], NextNot (k' ++ [eofRune]) t)
+    (hfold : foldCR text = render (kwPieces [.CREATE, .RETENTION, .POLICY] ks ++ crpPieces c c1 c2 c3 c4 name db n) ++ k')
+    (hL : Legal (kwPieces [.CREATE, .RETENTION, .POLICY] ks ++ crpPieces c c1 c2 c3 c4 name db n) (k' ++ [eofRune])) :
+    parseStatementText text params tbl = .ok (.createRetentionPolicy name db d (n : Int) c2.isSome sh fu pa) := by
+  refine statement_of_family text params tbl [.CREATE, .RETENTION, .POLICY] .parseCreateRetentionPolicyStatement
+    (by simp [familyPaths]) ks hks _ k' _ hfold hL ?_
+  intro s hs hL2
+  obtain ⟨s', h1, _⟩ := createRetentionPolicy_render_parse _ s c c1 c2 c3 c4 name db d n sh fu pa _ hd hn hsh hfu hpa
+    hstop hL2 hs
+  exact ⟨s', h1⟩
+
+/-! ### SHOW STATS / SHOW DIAGNOSTICS [FOR '<module>'] -/
+
+/-- The optional `FOR '<module>'`. -/
+def forPieces : Option (Render.Gap × Str × Render.Gap) → Str → List (Render.Gap × Piece)
+  | none, _ => []
+  | some (g1, w, g2), m => [(g1, .kw .FOR w), (g2, .str m)]
+
+theorem parseForModule_render (s : PState) (c : Option (Render.Gap × Str × Render.Gap)) (m k : Str) (hc : c = none → m = [])
+    (hL : Legal (forPieces c m) k) (hs : s.Before (render (forPieces c m) ++ k)) :
+    ∃ sK, sK.Before k ∧ ReturnsAt parseForModule s m sK c.isNone [.FOR] := by
+  cases c with
+  | none =>
+    have hm := hc rfl
+    subst hm
+    refine ⟨s, hs, ?_⟩
+    unfold ReturnsAt
+    rw [if_pos (by rfl)]
+    intro lx s' hp hne
+    unfold parseForModule
+    rw [P.run_bind _ _ s false s' (optTok_absent .FOR hp (by simpa using hne))]
+    rfl
+  | some c =>
+    obtain ⟨g1, w, g2⟩ := c
+    obtain ⟨s1, h1, b1⟩ := optTok_of (t := .FOR) (L := []) (step s g1 _ _ k hL hs.around)
+    obtain ⟨s2, h2, b2⟩ := parseString_of (v := m) (step s1 g2 _ _ k hL.tail b1.around)
+    refine ⟨s2, b2, ?_⟩
+    unfold ReturnsAt
+    rw [if_neg (by simp)]
+    unfold parseForModule
+    rw [P.run_bind _ _ s true s1 h1]
+    exact h2
+
+def forModuleFamily : List (List Token × Handler × (Str → Statement)) :=
+  [([.SHOW, .STATS], .parseShowStatsStatement, .showStats),
+   ([.SHOW, .DIAGNOSTICS], .parseShowDiagnosticsStatement, .showDiagnostics)]
+
+theorem gen_forModuleFamily : ∀ p ∈ forModuleFamily, (p.1, p.2.1) ∈ familyPaths := by decide
+
+/-- **SHOW STATS / SHOW DIAGNOSTICS [FOR 'module'] in free spelling** (no clause denotes the empty
+module name). -/
+theorem forModule_render_parse (fuel : Nat) (toks : List Token) (h : Handler) (C : Str → Statement)
+    (hh : (toks, h, C) ∈ forModuleFamily) (s : PState) (c : Option (Render.Gap × Str × Render.Gap)) (m k : Str)
+    (hc : c = none → m = []) (hL : Legal (forPieces c m) k) (hs : s.Before (render (forPieces c m) ++ k)) :
+    ∃ sK, sK.Before k ∧ ReturnsAt (runHandler fuel h) s (C m) sK c.isNone [.FOR] := by
+  obtain ⟨sK, hb, hr⟩ := parseForModule_render s c m k hc hL hs
+  refine ⟨sK, hb, ?_⟩
+  simp only [forModuleFamily, List.mem_cons, Prod.mk.injEq, List.not_mem_nil, or_false] at hh
+  unfold ReturnsAt at hr ⊢
+  rcases hh with ⟨_, rfl, rfl⟩ | ⟨_, rfl, rfl⟩ <;>
+  · simp only [runHandler]
+    split
+    · next hp =>
+      rw [if_pos hp] at hr
+      intro lx s' h1 h2
+      rw [P.run_bind _ _ s m s' (hr lx s' h1 h2)]; rfl
+    · next hp =>
+      rw [if_neg hp] at hr
+      rw [P.run_bind _ _ s m sK hr]; rfl
+
+/-- **SHOW STATS / SHOW DIAGNOSTICS, from the first character.** -/
+theorem forModule_statement_render_parse (text : Str) (params : List (Str × BoundValue)) (tbl : List (Char × Char))
+    (toks : List Token) (h : Handler) (C : Str → Statement) (hh : (toks, h, C) ∈ forModuleFamily)
+    (ks : List (Render.Gap × Str)) (hks : ks.length = toks.length) (c : Option (Render.Gap × Str × Render.Gap)) (m k' : Str)
+    (hc : c = none → m = [])
+    (hfold : foldCR text = render (kwPieces toks ks ++ forPieces c m) ++ k')
+    (hL : Legal (kwPieces toks ks ++ forPieces c m) (k' ++ [eofRune]))
+    (hnext : c = none → NextNot (k' ++ [eofRune]) .FOR) :
+    parseStatementText text params tbl = .ok (C m) := by
+  refine statement_of_family text params tbl toks h (gen_forModuleFamily _ hh) ks hks _ k' _ hfold hL ?_
+  intro s hs hL2
+  obtain ⟨sK, hb, hr⟩ := forModule_render_parse _ toks h C hh s c m _ hc hL2 hs
+  refine run_of_returnsAt hr hb ?_
+  intro hp t ht
+  simp only [List.mem_cons, List.not_mem_nil, or_false] at ht
+  subst ht
+  exact hnext (by cases c <;> simp_all)
+
+/-! ### why `EndOK` is needed: words glued to a quoted identifier -/
+
+/-- The side condition `Piece.EndOK` (a keyword or bare name must not be directly followed by `"`) is not
+an artefact: `KILL QUERY 7 ON"h"` is accepted as `KILL QUERY 7` (the scanner reads `ON"h"` as the identifier
+`h`, so the `ON` clause is not seen and `h` is left unread), `DROP DATABASE x"y"` drops `y`, and
+`DROP DATABASE"a"` is rejected. With a gap (or nothing glued) the theorems above apply. -/
+theorem glued_quote_counterexample :
+    (match parseStatementText "KILL QUERY 7 ON\"h\"".toList [] [] with
+     | .ok (.killQuery 7 host) => host == []
+     | _ => false) = true ∧
+    (match parseStatementText "DROP DATABASE x\"y\"".toList [] [] with
+     | .ok (.dropDatabase n) => n == "y".toList
+     | _ => false) = true ∧
+    (match parseStatementText "DROP DATABASE\"a\"".toList [] [] with
+     | .ok _ => false
+     | .error _ => true) = true := by
+  refine ⟨?_, ?_, ?_⟩ <;> decide +kernel
+
+/-! ### non-vacuity of the first families -/
+
+/-- `dRoP  /* c */ dataBASE⇥"a b"`: mixed case, two blanks + a block comment + a blank, a tab, a quoted name. -/
+example : parseStatementText "dRoP  /* c */ dataBASE\t\"a b\"".toList [] [] = .ok (.dropDatabase "a b".toList) := by
+  refine singleName_statement_render_parse _ [] [] [.DROP, .DATABASE] .parseDropDatabaseStatement .dropDatabase (by simp [singleNameFamily])
+    [([], "dRoP".toList), ([.ws ' ', .ws ' ', .block " c ".toList, .ws ' '], "dataBASE".toList)] rfl
+    [.ws '\t'] .quoted "a b".toList [] (by decide +kernel) ?_
+  exact legal_of_spaced _ _ _ _ (by decide +kernel) (by decide +kernel) (by decide +kernel)
+    (fun q _ => q.2.endOK_eof)
+
+/-- `show -- all of them⏎ DataBases ;`: a line comment as the gap, trailing text. -/
+example : parseStatementText "show -- all of them\n DataBases ;".toList [] [] = .ok .showDatabases := by
+  refine zeroArg_statement_render_parse _ [] [] [.SHOW, .DATABASES] .parseShowDatabasesStatement .showDatabases (by simp [zeroArgFamily])
+    [([], "show".toList), ([.ws ' ', .line " all of them".toList, .ws ' '], "DataBases".toList)] rfl " ;".toList
+    (by decide +kernel) ?_
+  exact legal_of_spaced _ _ _ _ (by decide +kernel) (by decide +kernel) (by decide +kernel)
+    (fun q _ => q.2.endOK_sepHead ⟨' ', _, rfl, by decide⟩)
+
+/-- `DROP retention POLICY "1h.cpu"/**/on⏎mydb` (CR LF in the raw text): the quoted name needs no gap
+behind it; `mydb` is written bare. -/
+example : parseStatementText "DROP retention POLICY \"1h.cpu\"/**/on\r\nmydb".toList [] [] =
+    .ok (.dropRetentionPolicy "1h.cpu".toList "mydb".toList) := by
+  refine nameOnDb_statement_render_parse _ [] [] [.DROP, .RETENTION, .POLICY] .parseDropRetentionPolicyStatement .dropRetentionPolicy
+    (by simp [nameOnDbFamily])
+    [([], "DROP".toList), ([.ws ' '], "retention".toList), ([.ws ' '], "POLICY".toList)] rfl
+    [.ws ' '] .quoted [.block []] "on".toList [.ws '\n'] .bare "1h.cpu".toList "mydb".toList [] (by decide +kernel) ?_
+  exact legal_of_spaced _ _ _ _ (by decide +kernel) (by decide +kernel) (by decide +kernel)
+    (fun q _ => q.2.endOK_eof)
+
+/-- `KILL query 007 on "host 1"`: leading zeros, lower-case keywords. -/
+example : parseStatementText "KILL query 007 on \"host 1\"".toList [] [] = .ok (.killQuery 7 "host 1".toList) := by
+  refine killQuery_statement_render_parse _ [] [] [([], "KILL".toList), ([.ws ' '], "query".toList)] rfl
+    [.ws ' '] 2 7 (some ([.ws ' '], "on".toList, [.ws ' '], .quoted)) "host 1".toList [] (by decide) (by simp)
+    (by decide +kernel) ?_ (by simp)
+  exact legal_of_spaced _ _ _ _ (by decide +kernel) (by decide +kernel) (by decide +kernel)
+    (fun q _ => q.2.endOK_eof)
+
+/-- `show retention policies` at the end of the input: no clause, the empty database name. -/
+example : parseStatementText "show retention policies".toList [] [] = .ok (.showRetentionPolicies []) := by
+  refine showRetentionPolicies_statement_render_parse _ [] []
+    [([], "show".toList), ([.ws ' '], "retention".toList), ([.ws ' '], "policies".toList)] rfl none [] [] (fun _ => rfl)
+    (by decide +kernel) ?_ (fun _ => nextNot_eof _ (by decide))
+  exact legal_of_spaced _ _ _ _ (by decide +kernel) (by decide +kernel) (by decide +kernel)
+    (fun q _ => q.2.endOK_eof)
+
+/-- `set password for bob='x y'`: no blank around `=`. -/
+example : parseStatementText "set password for bob='x y'".toList [] [] =
+    .ok (.setPasswordUser "x y".toList "bob".toList) := by
+  refine setPassword_statement_render_parse _ [] []
+    [([], "set".toList), ([.ws ' '], "password".toList), ([.ws ' '], "for".toList)] rfl
+    [.ws ' '] .bare [] [] "bob".toList "x y".toList [] (by decide +kernel) ?_
+  refine (legal_append _ _ _).mpr ⟨legal_of_spaced _ _ _ _ (by decide +kernel) (by decide +kernel) (by decide +kernel)
+    (fun q _ => q.2.endOK_sepHead ⟨' ', _, rfl, by decide⟩), ?_⟩
+  exact ⟨by decide, by decide +kernel, Piece.endOK_sepHead _ ⟨'=', _, rfl, by decide⟩, rfl, rfl,
+    Piece.endOK_sepHead _ ⟨'\'', _, rfl, by decide⟩, rfl, by decide +kernel, trivial, trivial⟩
+
+/-- `Create User "jo e" with PASSWORD 'it\'s'⏎WITH all /*!*/ privileges`. -/
+example : parseStatementText "Create User \"jo e\" with PASSWORD 'it\\'s'\nWITH all /*!*/ privileges".toList [] [] =
+    .ok (.createUser "jo e".toList "it's".toList true) := by
+  refine createUser_statement_render_parse _ [] [] [([], "Create".toList), ([.ws ' '], "User".toList)] rfl
+    [.ws ' '] .quoted [.ws ' '] "with".toList [.ws ' '] "PASSWORD".toList [.ws ' ']
+    (some ([.ws '\n'], "WITH".toList, [.ws ' '], "all".toList, [.ws ' ', .block "!".toList, .ws ' '], "privileges".toList))
+    "jo e".toList "it's".toList [] (by decide +kernel) ?_ (by simp)
+  exact legal_of_spaced _ _ _ _ (by decide +kernel) (by decide +kernel) (by decide +kernel)
+    (fun q _ => q.2.endOK_eof)
+
+/-- `grant ALL on "select" to alice` (`ALL` without `PRIVILEGES`) and `REVOKE all  privileges FROM "a b"`. -/
+example : parseStatementText "grant ALL on \"select\" to alice".toList [] [] =
+      .ok (.grant .all "select".toList "alice".toList) ∧
+    parseStatementText "REVOKE all  privileges FROM \"a b\"".toList [] [] = .ok (.revokeAdmin "a b".toList) := by
+  constructor
+  · refine (grantRevoke_statement_render_parse _ [] [] [] "grant".toList (.all [.ws ' '] "ALL".toList)
+      [.ws ' '] "on".toList [.ws ' '] .quoted [.ws ' '] "to".toList [.ws ' '] .bare "select".toList "alice".toList []).1
+      (by decide +kernel) ?_
+    exact legal_of_spaced _ _ _ _ (by decide +kernel) (by decide +kernel) (by decide +kernel)
+      (fun q _ => q.2.endOK_eof)
+  · refine (grantRevoke_statement_render_parse _ [] [] [] "REVOKE".toList
+      (.allPrivileges [.ws ' '] "all".toList [.ws ' ', .ws ' '] "privileges".toList)
+      [.ws ' '] "FROM".toList [.ws ' '] .quoted [] [] [] .bare [] "a b".toList []).2.2.2 rfl
+      (by decide +kernel) ?_
+    exact legal_of_spaced _ _ _ _ (by decide +kernel) (by decide +kernel) (by decide +kernel)
+      (fun q _ => q.2.endOK_eof)
+
+/-- Evaluating `ParseDuration` on a concrete literal (for the examples). -/
+theorem parseDuration_ok_of_check (lit : Str) (d : Int)
+    (h : (match parseDuration lit with | .ok v => decide (v = d) | .error _ => false) = true) :
+    parseDuration lit = .ok d := by
+  cases hp : parseDuration lit with
+  | error e => rw [hp] at h; cases h
+  | ok v => rw [hp] at h; simp only [decide_eq_true_eq] at h; rw [h]
+
+/-- `create retention policy "1h" on db0 duration 1h30m replication 03 shard duration 60m default past limit inf`:
+a two-unit duration literal, a leading zero, `INF`, lower-case keywords. -/
+example : parseStatementText
+    "create retention policy \"1h\" on db0 duration 1h30m replication 03 shard duration 60m default past limit inf".toList
+    [] [] = .ok (.createRetentionPolicy "1h".toList "db0".toList 5400000000000 3 true 3600000000000 0 0) := by
+  refine createRetentionPolicy_statement_render_parse _ [] []
+    [([], "create".toList), ([.ws ' '], "retention".toList), ([.ws ' '], "policy".toList)] rfl
+    ⟨[.ws ' '], .quoted, [.ws ' '], "on".toList, [.ws ' '], .bare, [.ws ' '], "duration".toList, [.ws ' '],
+      .lit "1h30m".toList, [.ws ' '], "replication".toList, [.ws ' '], 1⟩
+    (some ([.ws ' '], "shard".toList, [.ws ' '], "duration".toList, [.ws ' '], "60m".toList))
+    (some ([.ws ' '], "default".toList)) none
+    (some ([.ws ' '], "past".toList, [.ws ' '], "limit".toList, [.ws ' '], .inf "inf".toList))
+    "1h".toList "db0".toList 5400000000000 3 3600000000000 0 0 []
+    (parseDuration_ok_of_check "1h30m".toList 5400000000000 (by decide +kernel)) (by decide)
+    (parseDuration_ok_of_check "60m".toList 3600000000000 (by decide +kernel)) rfl rfl
+    ?_ (by decide +kernel) ?_
+  · intro t ht
+    refine nextNot_eof t ?_
+    simp only [List.mem_cons, List.not_mem_nil, or_false] at ht
+    rcases ht with rfl | rfl | rfl | rfl <;> decide
+  · exact legal_of_spaced _ _ _ _ (by decide +kernel) (by decide +kernel) (by decide +kernel)
+      (fun q _ => q.2.endOK_eof)
+
+/-- `SHOW stats FOR 'runtime'` and `show diagnostics` at the end of the input. -/
+example : parseStatementText "SHOW stats FOR 'runtime'".toList [] [] = .ok (.showStats "runtime".toList) ∧
+    parseStatementText "show diagnostics".toList [] [] = .ok (.showDiagnostics []) := by
+  constructor
+  · refine forModule_statement_render_parse _ [] [] [.SHOW, .STATS] .parseShowStatsStatement .showStats
+      (by simp [forModuleFamily]) [([], "SHOW".toList), ([.ws ' '], "stats".toList)] rfl
+      (some ([.ws ' '], "FOR".toList, [.ws ' '])) "runtime".toList [] (by simp) (by decide +kernel) ?_ (by simp)
+    exact legal_of_spaced _ _ _ _ (by decide +kernel) (by decide +kernel) (by decide +kernel)
+      (fun q _ => q.2.endOK_eof)
+  · refine forModule_statement_render_parse _ [] [] [.SHOW, .DIAGNOSTICS] .parseShowDiagnosticsStatement .showDiagnostics
+      (by simp [forModuleFamily]) [([], "show".toList), ([.ws ' '], "diagnostics".toList)] rfl
+      none [] [] (fun _ => rfl) (by decide +kernel) ?_ (fun _ => nextNot_eof _ (by decide))
+    exact legal_of_spaced _ _ _ _ (by decide +kernel) (by decide +kernel) (by decide +kernel)
+      (fun q _ => q.2.endOK_eof)
 
 end InfluxQL.C01
